@@ -374,3 +374,34 @@ Proof.
   - apply map_nth_error. exact Hk.
   - rewrite (map_nth_error _ _ _ He). reflexivity.
 Qed.
+
+(* ------------------------------------------------------------------ *)
+(* make_multi_pafs itself: permuting the instances leaves every cell's value unchanged, and an
+   instance whose edge e has a missing endpoint (NaN padding, wherever it stands in the list)
+   contributes no term to edge e *)
+Lemma multi_pafs_order_irrelevant fl xv yv n_edges srcss1 dstss1 srcss2 dstss2 sig e c i j x y :
+  nth_error yv i = Some y -> nth_error xv j = Some x -> (c < 2)%nat -> (e < n_edges)%nat ->
+  Forall (fun sd => (e < length (fst sd))%nat /\ (e < length (snd sd))%nat) (combine srcss1 dstss1) ->
+  Permutation (combine srcss1 dstss1) (combine srcss2 dstss2) ->
+  exists v1 v2,
+    cell4 (make_multi_pafs fl xv yv n_edges srcss1 dstss1 sig) e c i j = Some v1 /\
+    cell4 (make_multi_pafs fl xv yv n_edges srcss2 dstss2 sig) e c i j = Some v2 /\
+    Permutation v1 v2 /\ cval v1 = cval v2.
+Proof.
+  intros Hy Hx Hc He Hall HP.
+  assert (Hall2 : Forall (fun sd => (e < length (fst sd))%nat /\ (e < length (snd sd))%nat) (combine srcss2 dstss2)).
+  { rewrite Forall_forall in *. intros sd Hin. apply Hall. eapply Permutation_in; [apply Permutation_sym; exact HP|exact Hin]. }
+  destruct (multi_pafs_cell fl xv yv n_edges srcss1 dstss1 sig e c i j x y Hy Hx Hc He Hall) as [v1 [E1 [D1 S1]]].
+  destruct (multi_pafs_cell fl xv yv n_edges srcss2 dstss2 sig e c i j x y Hy Hx Hc He Hall2) as [v2 [E2 [D2 S2]]].
+  exists v1, v2. split; [exact E1|]. split; [exact E2|]. split.
+  - rewrite D1, D2. apply flat_map_perm. exact HP.
+  - rewrite S1, S2. apply Rsum_perm. apply Permutation_map. exact HP.
+Qed.
+
+Lemma padding_contributes_nothing fl sig e c x y sd :
+  @nth kp e (fst sd) None = None \/ @nth kp e (snd sd) None = None -> contrib fl sig e c x y sd = None.
+Proof.
+  intros [H|H]; unfold contrib; rewrite H.
+  - rewrite paf_cell_missing_src. destruct c; reflexivity.
+  - rewrite paf_cell_missing_dst. destruct c; reflexivity.
+Qed.
